@@ -34,7 +34,7 @@ ASSUMPTIONS = [
     "h is always followed by m, re, a painting operator or n; cs/CS is always followed by the matching sc/SC before painting",
     "a quadrilateral closed by returning to the start without h may be classified rectangle or curve",
 ]
-PROBES = ["painted path without moveto", "q nesting beyond 28", "sc in current colour space", "open four-segment polyline", "rect via re", "rect via mlllh", "rect reversed orientation", "quadrilateral not axis-aligned after CTM", "line ml", "line mlh", "curve with c/v/y", "several subpaths in one path", "path ended by n", "lone moveto", "q/Q nesting >= 3", "unbalanced Q", "colour space switch inside q/Q", "dash pattern", "close-and-paint operator", "split into >1 streams"]
+PROBES = ["colour space from resources", "undefined colour space name", "two documents in sequence", "polyline revisits a vertex", "painted path without moveto", "q nesting beyond 28", "sc in current colour space", "open four-segment polyline", "rect via re", "rect via mlllh", "rect reversed orientation", "quadrilateral not axis-aligned after CTM", "line ml", "line mlh", "curve with c/v/y", "several subpaths in one path", "path ended by n", "lone moveto", "q/Q nesting >= 3", "unbalanced Q", "colour space switch inside q/Q", "dash pattern", "close-and-paint operator", "split into >1 streams"]
 TIERS = {
     "quick": {"batches": 16, "runs": 1200, "budget_s": 45},
     "thorough": {"batches": 128, "runs": 8000, "budget_s": 900},
@@ -65,9 +65,37 @@ def col(t):
     return F(t.rint(0, 8, "col.v"), 8)
 
 
-def gen_color(t, ctx, prog, in_q, cur):
+CS_NAMES = ["CS0", "CS1", "Cs9"]
+
+
+def gen_csres(t):
+    """Resource colour spaces of one page: {name: (kind, number of components)} for a subset of CS_NAMES."""
+    res = {}
+    for nm in CS_NAMES:
+        if t.coin(40, 100, "csres.has"):
+            res[nm] = t.pick([("icc", 1), ("icc", 3), ("icc", 4), ("alias", 3), ("alias", 4), ("devicen", 2)], "csres.kind")
+    return res
+
+
+def gen_color(t, ctx, prog, in_q, cur, csres=None):
     """cur: {'n': non-stroking colour space, 's': stroking colour space} as the generator tracks them through q/Q."""
+    ncomp = dict(gfx.NCOMP)
+    ncomp.update({nm: spec[1] for nm, spec in (csres or {}).items()})
     k = t.draw(10, "col.kind")
+    if csres is not None and k in (6, 7) and t.coin(45, 100, "col.named"):
+        # a colour space named in the page's resources - or a name the resources do not define, which selects nothing
+        stroke = k == 7
+        nm = t.pick(CS_NAMES, "col.csname")
+        prog.append(Op("CS" if stroke else "cs", [Name(nm.encode())]))
+        if nm in csres:
+            cur["s" if stroke else "n"] = nm
+            ctx.probe("colour space from resources")
+        else:
+            ctx.probe("undefined colour space name")
+        cs = cur["s" if stroke else "n"]
+        opn = t.pick(["SC", "SCN"], "col.sc") if stroke else t.pick(["sc", "scn"], "col.sc")
+        prog.append(Op(opn, [col(t) for _ in range(ncomp[cs])]))
+        return
     if k == 0:
         prog.append(Op("g", [col(t)]))
         cur["n"] = "DeviceGray"
@@ -91,7 +119,7 @@ def gen_color(t, ctx, prog, in_q, cur):
         stroke = k == 7
         prog.append(Op("CS" if stroke else "cs", [Name(cs.encode())]))
         opn = t.pick(["SC", "SCN"], "col.sc") if stroke else t.pick(["sc", "scn"], "col.sc")
-        prog.append(Op(opn, [col(t) for _ in range(gfx.NCOMP[cs])]))
+        prog.append(Op(opn, [col(t) for _ in range(ncomp[cs])]))
         cur["s" if stroke else "n"] = cs
         if in_q:
             ctx.probe("colour space switch inside q/Q")
@@ -100,7 +128,7 @@ def gen_color(t, ctx, prog, in_q, cur):
         stroke = k == 9
         cs = cur["s" if stroke else "n"]
         opn = t.pick(["SC", "SCN"], "col.sc") if stroke else t.pick(["sc", "scn"], "col.sc")
-        prog.append(Op(opn, [col(t) for _ in range(gfx.NCOMP[cs])]))
+        prog.append(Op(opn, [col(t) for _ in range(ncomp[cs])]))
         ctx.probe("sc in current colour space")
 
 
@@ -154,8 +182,16 @@ def gen_subpath(t, ctx, prog):
         ctx.probe("curve with c/v/y")
     elif k == 4:
         prog.append(Op("m", [x, y]))
+        seen_pts = [(x, y)]
         for _ in range(t.rint(2, 6, "poly.n")):
-            prog.append(Op("l", [co(t, "px"), co(t, "py")]))
+            if t.coin(25, 100, "poly.revisit"):
+                # a vertex that coincides with an earlier one (the start point included): still a polyline of that many segments
+                q = t.pick(seen_pts, "poly.which")
+                ctx.probe("polyline revisits a vertex")
+            else:
+                q = (co(t, "px"), co(t, "py"))
+            seen_pts.append(q)
+            prog.append(Op("l", list(q)))
         if t.coin(50, 100, "poly.h"):
             prog.append(Op("h"))
     elif k == 5:
@@ -174,7 +210,7 @@ def gen_subpath(t, ctx, prog):
         prog.append(Op("l", [x, y]))  # zero-length segment
 
 
-def gen_program(t, ctx):
+def gen_program(t, ctx, csres=None):
     prog = []
     depth = 0
     maxdepth = 0
@@ -205,7 +241,7 @@ def gen_program(t, ctx):
                 prog.append(Op("d", [arr, F(t.rint(0, 6, "dash.phase"))]))
                 ctx.probe("dash pattern")
             else:
-                gen_color(t, ctx, prog, depth > 0, cur)
+                gen_color(t, ctx, prog, depth > 0, cur, csres)
         if t.coin(6, 100, "invalid.path"):
             # a path that does not begin with m / re: nothing may be painted and nothing may stay behind
             for _ in range(t.rint(0, 2, "invalid.n")):
@@ -249,13 +285,25 @@ def gen_program(t, ctx):
     return prog
 
 
-def build_document(t, pieces):
+def build_document(t, pieces, csres=None):
     objects = {1: {b"Type": Name(b"Catalog"), b"Pages": Ref(2, 0)}, 2: {b"Type": Name(b"Pages"), b"Kids": [Ref(3, 0)], b"Count": 1}}
+    resources = {}
+    if csres:
+        csd = {}
+        for j, (nm, (kind, n)) in enumerate(sorted(csres.items())):
+            if kind == "icc":
+                objects[40 + j] = docs.content_stream(bytes(16), extra={b"N": n})
+                csd[nm.encode()] = [Name(b"ICCBased"), Ref(40 + j, 0)]
+            elif kind == "alias":
+                csd[nm.encode()] = Name({3: b"DeviceRGB", 4: b"DeviceCMYK"}[n])
+            else:
+                csd[nm.encode()] = [Name(b"DeviceN"), [Name(b"Ink%d" % i) for i in range(n)], Name(b"DeviceCMYK"), {b"FunctionType": 2, b"Domain": [0, 1], b"N": 1}]
+        resources[b"ColorSpace"] = csd
     refs = []
     for i, p in enumerate(pieces):
         objects[10 + i] = docs.content_stream(p, flate=t.coin(25, 100, "flate"))
         refs.append(Ref(10 + i, 0))
-    objects[3] = {b"Type": Name(b"Page"), b"Parent": Ref(2, 0), b"MediaBox": [0, 0, 600, 800], b"Resources": {}, b"Contents": refs[0] if len(refs) == 1 and t.coin(50) else refs}
+    objects[3] = {b"Type": Name(b"Page"), b"Parent": Ref(2, 0), b"MediaBox": [0, 0, 600, 800], b"Resources": resources, b"Contents": refs[0] if len(refs) == 1 and t.coin(50) else refs}
     return docs.build_pdf(objects, 1).getvalue()
 
 
@@ -364,10 +412,7 @@ def compare(expected, shapes, cfg, devs, tag):
             return
 
 
-def run(tape, ctx, item=None):
-    t = tape
-    devs = []
-    prog = gen_program(t, ctx)
+def run_document(t, ctx, prog, csres, devs, scen, label):
     try:
         expected = gfx.Machine({}, {}).run(prog)
     except Exception as e:
@@ -377,15 +422,14 @@ def run(tape, ctx, item=None):
         if e[0] == "shape" and e[1]["kinds"] in ("mlllh", "mllll", "mllllh") and "rect" not in gfx.classify(e[1]["kinds"], e[1]["pts"]):
             ctx.probe("quadrilateral not axis-aligned after CTM")
     data, splits = gfx.serialise(prog, t)
-    scen = []
     for split in (False, True):
         pieces = gfx.split_stream(data, splits, t) if split else [data]
         if len(pieces) > 1:
             ctx.probe("split into >1 streams")
-        pdf = build_document(t, pieces)
+        pdf = build_document(t, pieces, csres)
         pol, pdesc = seams.draw_chunk_policy(t, None)
         ctx.seam("chunk")
-        cfg = "pieces=%r; chunk=%s" % (pieces, pdesc)
+        cfg = "%spieces=%r; chunk=%s; colour-space resources=%r" % (label, pieces, pdesc, csres)
         try:
             shapes = interpret(pdf, pol)
         except Exception as e:
@@ -393,6 +437,23 @@ def run(tape, ctx, item=None):
             continue
         compare(expected, shapes, cfg, devs, "split" if split else "program")
         scen.append((pieces, pdesc))
+    return nshape
+
+
+def run(tape, ctx, item=None):
+    t = tape
+    devs = []
+    scen = []
+    # one or two documents interpreted one after the other in this process: what the first one's resources define
+    # (colour spaces under the same names, with other component counts) must not reach the second
+    ndocs = 2 if t.coin(30, 100, "ndocs") else 1
+    if ndocs == 2:
+        ctx.probe("two documents in sequence")
+    nshape, prog = 0, []
+    for di in range(ndocs):
+        csres = gen_csres(t) if t.coin(60, 100, "csres") else None
+        prog = gen_program(t, ctx, csres)
+        nshape = run_document(t, ctx, prog, csres, devs, scen, "" if ndocs == 1 else "document %d of 2 (resources %r); " % (di + 1, csres))
     seen = {}
     for d in devs:
         seen.setdefault(d.sig, d)
